@@ -160,9 +160,17 @@ def _model_matches_record(master, srv, rec):
     return names == set(rec.get('traits', []))
 
 
-def check_c11(world):
+_READS = ('get', 'get_children', 'exists')
+
+
+def check_c11(world, fail_read=None):
     """Start a fresh master on a copy of the stored state, load_model() only,
-    compare with what is recorded under healthy servers."""
+    compare with what is recorded under healthy servers.  fail_read=k: the
+    k-th ZooKeeper read of the load fails with ConnectionLoss; the load may
+    abort (the caller sees the exception, the master is restarted) - but if
+    it completes, what it built is judged like any other load.  Returns the
+    number of reads the load issued."""
+    import kazoo.exceptions
     tree = world.tree.clone()
     tree.clock_ms = world.tree.clock_ms
     client = tree.client()
@@ -172,7 +180,26 @@ def check_c11(world):
     scheduled = set(tree.find(z.SCHEDULED).children)
     pres = {s: n.ctime for s, n in tree.find(z.SERVER_PRESENCE).children.items()}
     srv_records = {s: n.data for s, n in tree.find(z.SERVERS).children.items()}
-    m2.load_model()
+    reads = [0]
+
+    def hook(cl, op, _path):
+        if cl is client and op in _READS:
+            reads[0] += 1
+            if fail_read is not None and reads[0] == fail_read + 1:
+                raise kazoo.exceptions.ConnectionLoss('injected')
+
+    tree.hook = hook
+    try:
+        m2.load_model()
+    except kazoo.exceptions.ConnectionLoss:
+        if fail_read is None:
+            raise
+        world.stats['c11_faulted_loads_aborted'] += 1
+        return reads[0]
+    finally:
+        tree.hook = None
+    if fail_read is not None:
+        world.stats['c11_faulted_loads_completed'] += 1
     old = world.master
     world.stats['c11_reloads'] += 1
     healthy_records = 0
@@ -231,6 +258,7 @@ def check_c11(world):
         if app.server and (app.server, app.name) not in rec_list:
             world.flag('placed-without-record', 'Loader.load_model',
                        {'app': world.tmpl[app.name], 'server': app.server})
+    return reads[0]
 
 
 def mon_c05_published(world, kind):
